@@ -9,6 +9,7 @@ ledger event, no deadlock (no enabled thread and no virtual deadline), no intern
 reaching a caller."""
 from __future__ import annotations
 
+import os
 import random
 
 from .. import REPO  # noqa: F401
@@ -31,6 +32,29 @@ ASSUMPTIONS = ["shim Lock/Event/Semaphore model threading's semantics; pre-empti
                "(h11/h2/hpack run atomically: under-approximates CPython, can miss but not invent races)",
                "well-behaved use only: the pool is not closed while requests are in flight"]
 REQUIRED = ["schedules", "yield_points", "line_events", "context_switches", "requests_ok", "oracle_limit_evals", "lock_contended"]
+
+
+SWEEP_FILES = ("connection_pool.py", "http11.py", "connection.py", "_synchronization.py", "interfaces.py")
+
+
+def sweep_specs():
+    """Small fixed workloads for the systematic single-pre-emption sweep."""
+    out = []
+    for i, kw in enumerate([
+            dict(n_origins=1, max_connections=1, max_keepalive=None, keepalive_expiry=None, n_callers=3, reqs=2),
+            dict(n_origins=2, max_connections=1, max_keepalive=1, keepalive_expiry=None, n_callers=3, reqs=2),
+            dict(n_origins=1, max_connections=2, max_keepalive=0, keepalive_expiry=None, n_callers=3, reqs=2),
+            dict(n_origins=2, max_connections=2, max_keepalive=1, keepalive_expiry=0.02, n_callers=4, reqs=2)]):
+        r = random.Random(1000 + i)
+        base = dict(proxy=None, fault_ops=[], latency="zero", think=0.0, pool_timeout=None, resp_delay=0.01,
+                    behaviours=["read", "head-only", "read", "partial"], server_modes=False, early=False, max_body=3000,
+                    proto="h1", retries=0, connect_fail=0.0)
+        base.update(kw)
+        spec = gen_spec(r, "sync", **base)
+        spec["family"] = "F2"
+        spec.pop("pool_kw", None)
+        out.append(spec)
+    return out
 
 
 def gen_thread_spec(r: random.Random) -> dict:
@@ -75,8 +99,38 @@ def run_case(case):
         if not any(x["key"] == key for x in viol):
             viol.append({"key": key, "what": what, "detail": detail})
 
-    for spec in case["specs"]:
-        for sched in case["scheds"]:
+    last = {}
+
+    def jobs():
+        if case.get("kind") != "sweep":
+            for spec_ in case["specs"]:
+                for sched_ in case["scheds"]:
+                    yield spec_, sched_
+            return
+        # systematic single pre-emption: a baseline run records which source lines of the sync package run and how often;
+        # then, for every such line and the n-th time it is executed, the thread executing it loses the CPU right there
+        # for 30 ms of virtual time (longer than an exchange takes) while everybody else runs (no other pre-emption;
+        # initial priorities from the seed)
+        spec_ = case["spec"]
+        seen = {}
+        for bi, base_ in enumerate([{"strategy": "pct", "depth": 0, "seed": 1}, {"strategy": "pct", "depth": 0, "seed": 2},
+                                    {"strategy": "random", "p": 0.05, "seed": 3}, {"strategy": "random", "p": 0.3, "seed": 4},
+                                    {"strategy": "pct", "depth": 3, "seed": 5}]):
+            yield spec_, dict(base_, collect=True)
+            for k_, n_ in (last["s"].line_seen or {}).items():
+                seen[k_] = max(seen.get(k_, 0), n_)
+        lines_ = sorted(k for k in seen if os.path.basename(k[0]) in SWEEP_FILES)
+        cnt["sweep_lines_in_baseline"] = cnt.get("sweep_lines_in_baseline", 0) + len(lines_)
+        for f_, l_ in lines_[case["chunk"]::case["n_chunks"]]:
+            for occ in case["occs"]:
+                if occ <= seen[(f_, l_)]:
+                    for sd in case["seeds"]:
+                        for pause in case.get("pauses", [0.03]):
+                            yield spec_, {"strategy": "pct", "depth": 0, "seed": sd * 7919 + l_ * 31 + occ,
+                                          "target": [f_, l_, occ, pause], "at": f"{os.path.basename(f_)}:{l_}#{occ}", "pause": pause}
+
+    for spec, sched in jobs():
+        if True:
             box = {}
 
             def setup(s):
@@ -90,7 +144,13 @@ def run_case(case):
             s, outs, shim = run_threaded(setup, seed=sched["seed"] ^ spec["seed"], strategy=sched["strategy"], p=sched.get("p", 0.1),
                                          depth=sched.get("depth", 2), lines=True, est_steps=3000,
                                          p_jump=0.01 if spec["family"] == "F4" else 0.0,
-                                         opcodes=bool(sched.get("opcodes")))
+                                         opcodes=bool(sched.get("opcodes")), target=tuple(sched["target"]) if sched.get("target") else None,
+                                         collect=bool(sched.get("collect")))
+            last["s"] = s
+            if sched.get("target"):
+                cnt["sweep_schedules"] = cnt.get("sweep_schedules", 0) + 1
+                cnt["sweep_preemptions_fired"] = cnt.get("sweep_preemptions_fired", 0) + (1 if s.target_fired else 0)
+                sched = {k: x for k, x in sched.items() if k != "target"}  # (the path is machine-specific; 'at' names it)
             wl, ob = box["wl"], box["ob"]
             cnt["schedules"] += 1
             cnt["yield_points"] += s.steps
@@ -173,4 +233,12 @@ def plan(tier, seed):
         scheds[-1] = dict(scheds[-1], opcodes=True)
         scheds[-2] = dict(scheds[-2], opcodes=True, p=0.05)
         cases.append({"specs": specs, "scheds": scheds, "seed": r.randrange(1 << 30)})
+    specs = sweep_specs()
+    n_chunks = 8 if tier == "quick" else 16
+    for spec in (specs[:2] if tier == "quick" else specs):
+        for chunk in range(n_chunks):
+            cases.append({"kind": "sweep", "spec": spec, "chunk": chunk, "n_chunks": n_chunks,
+                          "occs": [1, 2, 4] if tier == "quick" else [1, 2, 3, 4, 6, 9, 14],
+                          "seeds": [seed] if tier == "quick" else [seed, seed + 1], "seed": seed,
+                          "pauses": [0.03] if tier == "quick" else [0.0, 0.015, 0.1]})
     return cases
